@@ -142,7 +142,7 @@ pub fn shard_run(tier: &str, seed: u64, replay_case: Option<usize>, shard: Shard
         // one target per (shard, path)
         let mut target: Option<Target> = None;
         let mut client = Uuid::new_v4();
-        let mut latest = Uuid::nil();
+        let mut latest = if pi % 2 == 0 { Uuid::new_v4() } else { Uuid::nil() };
         let mut uploads_on_client = 0usize;
         for (li, len) in lens.iter().enumerate() {
             let mut prng = Rng::new(seed).fork((pi * 1_000_003 + li) as u64);
@@ -212,14 +212,15 @@ pub fn shard_run(tier: &str, seed: u64, replay_case: Option<usize>, shard: Shard
                     }
                     if uploads_on_client >= 40 {
                         client = Uuid::new_v4();
-                        latest = Uuid::nil();
+                        // every other chain starts from a non-nil parent (a replica that synced elsewhere before)
+                        latest = if case % 2 == 0 { Uuid::new_v4() } else { Uuid::nil() };
                         uploads_on_client = 0;
                     }
                     let data = spec.bytes();
                     let chunks = chunk(&data, &sizes);
                     let framing = if case % 2 == 0 { Framing::Chunked } else { Framing::ContentLength };
                     let up_req = if snapshot { Req::AddSnapshot { vid: latest, data: data.clone() } } else { Req::AddVersion { parent: latest, data: data.clone() } };
-                    if snapshot && latest.is_nil() {
+                    if snapshot && uploads_on_client == 0 {
                         continue; // a snapshot needs a version
                     }
                     out.executed += 1;
@@ -331,6 +332,76 @@ pub fn shard_run(tier: &str, seed: u64, replay_case: Option<usize>, shard: Shard
             }
         }
     }
+    // ---- overlapping uploads on one server worker: connection A sends half of its body, B uploads
+    // completely, A finishes; both must be stored byte for byte
+    if replay_case.is_none() && shard.k == (3 % shard.n) {
+        use crate::http::socket_request_two_parts;
+        for workers in [1usize, 2] {
+            let web = WebServer::new(Config::default().to_server(), None, InMemoryStorage::new());
+            let srv = match SockServer::start(web, workers) {
+                Ok(s) => s,
+                Err(e) => {
+                    out.errors.push(format!("socket server: {e}"));
+                    continue;
+                }
+            };
+            let sizes: Vec<(usize, usize)> = if thorough { vec![(10, 10), (3000, 200), (200, 3000), (70_000, 70_000), (300_000, 5), (5, 300_000), (100_000, 100_001), (1_000_000, 200_000)] } else { vec![(3000, 200), (70_000, 70_000), (5, 300_000)] };
+            for (i, (na, nb)) in sizes.iter().enumerate() {
+                let (ca, cb) = (Uuid::new_v4(), Uuid::new_v4());
+                let da = PaySpec::new(*na, 0, seed ^ (i as u64) << 4 ^ 0xA).bytes();
+                let db = PaySpec::new(*nb, 0, seed ^ (i as u64) << 4 ^ 0xB).bytes();
+                let snapshot_b = i % 2 == 1;
+                let ra = Req::AddVersion { parent: Uuid::nil(), data: da.clone() };
+                // B first needs a version if it uploads a snapshot
+                let mut vb = Uuid::nil();
+                if snapshot_b {
+                    if let (Resp::AddOk { vid, .. }, _) = sock_exec(&srv.addr, cb, &Req::AddVersion { parent: Uuid::nil(), data: b"b0".to_vec() }, None, Framing::ContentLength) {
+                        vb = vid;
+                    }
+                }
+                let rb = if snapshot_b { Req::AddSnapshot { vid: vb, data: db.clone() } } else { Req::AddVersion { parent: Uuid::nil(), data: db.clone() } };
+                let mut b_resp: Option<Resp> = None;
+                let addr = srv.addr.clone();
+                let ha = Subject::build_http(ca, &ra);
+                let resp_a = {
+                    let rb2 = rb.clone();
+                    let mut between = || {
+                        // B is written in three chunks so that its upload suspends too
+                        let n = db.len();
+                        let parts = vec![db[..n / 3].to_vec(), db[n / 3..2 * n / 3].to_vec(), db[2 * n / 3..].to_vec()];
+                        let (r, _) = sock_exec(&addr, cb, &rb2, Some(parts), Framing::Chunked);
+                        b_resp = Some(r);
+                    };
+                    socket_request_two_parts(&srv.addr, &ha, na / 2, Duration::from_secs(30), &mut between)
+                };
+                cov.evaluations += 2;
+                cov.hit(format!("interleaved-uploads|workers={workers}|{}", if snapshot_b { "version+snapshot" } else { "version+version" }));
+                let ra_dec = Subject::decode_http(&ra, &resp_a);
+                let (down_a, _) = sock_exec(&srv.addr, ca, &Req::GetChild { parent: Uuid::nil() }, None, Framing::ContentLength);
+                let (down_b, _) = if snapshot_b { sock_exec(&srv.addr, cb, &Req::GetSnapshot, None, Framing::ContentLength) } else { sock_exec(&srv.addr, cb, &Req::GetChild { parent: Uuid::nil() }, None, Framing::ContentLength) };
+                let ok_a = matches!((&ra_dec, &down_a), (Resp::AddOk { .. }, Resp::Found { data, .. }) if *data == da);
+                let ok_b = match (&b_resp, &down_b) {
+                    (Some(Resp::AddOk { .. }), Resp::Found { data, .. }) => *data == db,
+                    (Some(Resp::SnapOk), Resp::Snap { data, .. }) => *data == db,
+                    _ => false,
+                };
+                if !ok_a || !ok_b {
+                    let describe = |want: &Vec<u8>, got: &Resp| match got {
+                        Resp::Found { data, .. } | Resp::Snap { data, .. } => format!("{} bytes returned for {} uploaded, first difference at {:?}", data.len(), want.len(), first_diff(data, want)),
+                        o => o.short(),
+                    };
+                    out.found.push(Found {
+                        property: "C06".into(),
+                        signature: "C06:interleaved uploads".into(),
+                        msg: format!("two uploads overlapping on a {workers}-worker server (A: {na} bytes sent in two halves, B: {nb} bytes sent in between): A upload {} / read back {}; B upload {} / read back {}", ra_dec.outcome(), describe(&da, &down_a), b_resp.as_ref().map(|r| r.outcome()).unwrap_or("none"), describe(&db, &down_b)),
+                        replay: json!({"origin": "c06-interleaved", "case": i, "workers": workers}),
+                    });
+                    out.cov = cov;
+                    return out;
+                }
+            }
+        }
+    }
     out.cov = cov;
     out
 }
@@ -342,12 +413,12 @@ pub fn finalize(out: ShardOut, is_replay: bool) -> CheckResult {
     let coverage = json!({
         "evaluations": cov.evaluations,
         "distinct_nontrivial": cov.situations.len(),
-        "rule": "uploads of versions and snapshots: lengths 1,2,3, powers of two +-1, every 9th (quick) / every (thorough) length in the page-overflow neighbourhood 3850..4250, 64 KiB / 128 KiB / 1 MiB +-1, random lengths, 16 MiB (100 MiB -1 / exactly 100 MiB in thorough) x 10 byte classes (zeros, 0xFF, random, digits, numeric-looking text, valid and invalid UTF-8, NUL/CRLF runs, chunk-framing look-alikes) x chunkings (one chunk, 1+rest, rest+1, 3 and 5 chunks, empty chunks around, one byte per chunk, 4095/4096/4097/65536 boundaries, powers of two, random partitions) through the library, the in-process HTTP service (exact chunk delivery), an in-process HttpServer over a real socket (chunked transfer encoding / Content-Length in flushed segments) and the real executable with SQLite; each upload is read back through the same path and compared byte for byte together with its ids. distinct_nontrivial = distinct (path, kind, byte class, chunking family, length class).",
+        "rule": "uploads of versions and snapshots: lengths 1,2,3, powers of two +-1, every 9th (quick) / every (thorough) length in the page-overflow neighbourhood 3850..4250, 64 KiB / 128 KiB / 1 MiB +-1, random lengths, 16 MiB (100 MiB -1 / exactly 100 MiB in thorough) x 10 byte classes (zeros, 0xFF, random, digits, numeric-looking text, valid and invalid UTF-8, NUL/CRLF runs, chunk-framing look-alikes) x chunkings (one chunk, 1+rest, rest+1, 3 and 5 chunks, empty chunks around, one byte per chunk, 4095/4096/4097/65536 boundaries, powers of two, random partitions) through the library, the in-process HTTP service (exact chunk delivery), an in-process HttpServer over a real socket (chunked transfer encoding / Content-Length in flushed segments) and the real executable with SQLite; each upload is read back through the same path and compared byte for byte together with its ids; chains start from nil and from non-nil parents; plus pairs of uploads that overlap on a 1- and a 2-worker server (one connection sends half of its body, the other uploads completely in three chunks, the first finishes). distinct_nontrivial = distinct (path, kind, byte class, chunking family, length class).",
         "samples": cov.samples,
         "uploads": out.executed,
         "situations_top": top.iter().take(40).map(|(k, v)| json!({"situation": k, "n": v})).collect::<Vec<_>>(),
     });
-    let required = ["Lib(Sqlite)|", "Http(Mem)|", "Http(Sqlite)|", "SocketMem|", "SocketBinary|", "chunking=five", "chunking=empty", "len~overflow-window", "len~big", "class=invalid-utf8", "class=numeric-text", "|snapshot|"];
+    let required = ["interleaved-uploads|workers=1", "Lib(Sqlite)|", "Http(Mem)|", "Http(Sqlite)|", "SocketMem|", "SocketBinary|", "chunking=five", "chunking=empty", "len~overflow-window", "len~big", "class=invalid-utf8", "class=numeric-text", "|snapshot|"];
     let verdict = if !out.found.is_empty() {
         Verdict::Violated(out.found)
     } else if !out.errors.is_empty() {
